@@ -128,6 +128,7 @@ class native_stubs:
 
 
 def run_native(h, case):
+    api._GHOSTS.clear()
     with native_stubs(h):
         r = h.fn(*case)
         if hasattr(r, "send"):
